@@ -30,7 +30,7 @@ STUBS = ["glue/, iter/: codebasin.Path and codebasin.source.Path -> façade with
 ASSUMPTIONS = ["gitignore pattern semantics (pathspec vs `git check-ignore`) are NOT checked: third-party regex code",
                "real directory walking (rglob) is replaced by a fixed listing in iter/; spelling/ uses the real file system untraced"]
 BOUNDS = {"quick": "glue/: all answer combinations for 2 directories and 8 extensions; iter/: 3 enumerated paths; ext/: all 38 extensions of "
-                   "both lists plus 6 foreign ones; spelling/: 9 spellings x 3 exclude lists",
+                   "both lists plus 6 foreign ones; spelling/: 9 file spellings x 4 spellings of the code-base directory x 3 exclude lists",
           "thorough": "same (exhausted)"}
 EXPLANATION = ("The environment's answers (exists, is_dir, containment per directory, pattern verdict) are symbolic bools; CrossHair exhausts "
                "them through the real __contains__/__iter__ and the result is compared with the conjunction the property states. Spelling "
@@ -218,15 +218,21 @@ SPELLINGS = ["{root}/src/a.c", "src/a.c", "./src/a.c", "src/../src/a.c", "src/su
 EXCLUDES = [[], ["src/a.c"], ["*.c"]]
 
 
-def h_spelling(s: int, x: int) -> bool:
+ROOT_SPELLINGS = ["{root}", "{root}/src/..", "{rootlink}", "{root}/ldir/.."]
+
+
+def h_spelling(s: int, x: int, r: int) -> bool:
     """
-    pre: 0 <= s < 9 and 0 <= x < 3
+    pre: 0 <= s < 9 and 0 <= x < 3 and 0 <= r < 4
     post: _
     """
     import shutil
     import tempfile
 
-    si = xi = None
+    si = xi = ri = None
+    for k in range(4):
+        if r == k:
+            ri = k
     for k in range(9):
         if s == k:
             si = k
@@ -255,8 +261,11 @@ def h_spelling(s: int, x: int) -> bool:
             os.symlink(d + "/src/a.c", d + "/lfile.c")
             os.symlink(out + "/x.c", d + "/lout.c")
             os.symlink(d + "/nowhere.c", d + "/dangling.c")
+            os.symlink(d, out + "/rootlink")
             os.chdir(d)
-            cb = codebasin.CodeBase(d, exclude_patterns=list(EXCLUDES[xi]))
+            # the code-base directory itself may be given canonically, with '..', or through a symbolic link
+            rootsp = ROOT_SPELLINGS[ri].format(root=d, rootlink=out + "/rootlink")
+            cb = codebasin.CodeBase(rootsp, exclude_patterns=list(EXCLUDES[xi]))
             canon = (d + "/src/a.c") in cb
             sp = SPELLINGS[si].format(root=d)
             got = sp in cb
@@ -285,7 +294,7 @@ def h_spelling(s: int, x: int) -> bool:
             shutil.rmtree(d, ignore_errors=True)
             shutil.rmtree(out, ignore_errors=True)
     if P.get("_replay"):
-        LAST.update(spelling=SPELLINGS[si], excludes=EXCLUDES[xi], why=why)
+        LAST.update(spelling=SPELLINGS[si], excludes=EXCLUDES[xi], root_spelling=ROOT_SPELLINGS[ri], why=why)
     return why is None
 
 
